@@ -62,6 +62,11 @@ def generated_sources(outdir):
     return [os.path.join(outdir, f) for f in ("zone_infos.cpp", "zone_policies.cpp", "zone_registry.cpp")]
 
 
+class GeneratedDoesNotCompile(vt.HarnessError):
+    """The C++ files written by tzcompiler.py were rejected by the C++ compiler (a finding for the properties about the
+    generated tables, not a harness problem)."""
+
+
 def build_with_generated(check_id, exe_name, driver, x_out=None, x_ns=None, b_out=None, b_ns=None, extra=(), extra_sources=(),
                          sanitize=False, opt="-O2"):
     """Build a driver (sweep.cpp / dumpdb.cpp) against generated databases (either may be None)."""
@@ -80,4 +85,12 @@ def build_with_generated(check_id, exe_name, driver, x_out=None, x_ns=None, b_ou
         srcs += generated_sources(b_out)
     else:
         flags += ["-DVDB_NO_B=1"]
-    return vt.build(check_id, exe_name, [driver], extra=flags, extra_sources=srcs, sanitize=sanitize, opt=opt)
+    try:
+        return vt.build(check_id, exe_name, [driver], extra=flags, extra_sources=srcs, sanitize=sanitize, opt=opt)
+    except vt.HarnessError as e:
+        msg = str(e)
+        for o in (x_out, b_out):
+            if o and any((o + "/") in line and "error:" in line for line in msg.splitlines()):
+                lines = [l for l in msg.splitlines() if "error:" in l]
+                raise GeneratedDoesNotCompile("generated tables do not compile: " + " | ".join(l.replace(o + "/", "") for l in lines[:4]))
+        raise
